@@ -28,8 +28,24 @@ EXPLANATION = ("modular_vmap(f)(args) and f(lane slice) are traced; lane i of ev
                "fed element [i] of the batched sites, and element [i] of every batched site has lane i's parameters (one independent draw per lane, "
                "laid out along the mapped axis); the Vmap combinator's five GFI methods are checked against the reference semantics per lane")
 
-EVENT = {"normal": ((0, 0), 0), "categorical": ((1,), 0), "multivariatenormal": ((1, 2), 1), "flip": ((0,), 0), "exponential": ((0,), 0),
-         "uniform": ((0, 0), 0)}
+# family -> ([(constructor parameter name, event rank of that parameter)] in the documented TFP positional order, event rank of a draw)
+EVENT = {"normal": ([("loc", 0), ("scale", 0)], 0), "categorical": ([("logits", 1), ("probs", 1)], 0),
+         "multivariatenormal": ([("loc", 1), ("covariance_matrix", 2)], 1), "flip": ([("p", 0)], 0), "exponential": ([("rate", 0)], 0),
+         "uniform": ([("low", 0), ("high", 0)], 0), "bernoulli": ([("logits", 0), ("probs", 0)], 0)}
+
+
+def _named_params(fam, args, kwargs):
+    """positional and keyword parameters of a site as {constructor parameter name: (term array, event rank)}"""
+    names, _ = EVENT[fam]
+    out = {}
+    for (n, e), a in zip(names, args):
+        out[n] = (a, e)
+    ranks = dict(names)
+    for k, v in kwargs.items():
+        if k in out or k not in ranks:
+            raise ValueError(f"parameter {k!r}")
+        out[k] = (v, ranks[k])
+    return out
 
 
 def _functions():
@@ -76,6 +92,17 @@ def _functions():
         x = multivariate_normal.sample(mu, cov)
         return x, multivariate_normal.logpdf(x, mu, cov)
 
+    def kwsite(mu, s):
+        # distribution parameters passed by keyword, both to the sampler and to the density
+        x = normal.sample(mu, scale=s)
+        return x, normal.logpdf(x, loc=mu, scale=s)
+
+    def kwprobs(p):
+        from genjax import bernoulli
+        # keyword that is NOT the first positional parameter of the TFP constructor (logits comes first)
+        b = bernoulli.sample(probs=p)
+        return b, bernoulli.logpdf(b, probs=p)
+
     def two_sites(mu, sigma):
         x = normal.sample(mu, 1.0)
         y = normal.sample(x, sigma)
@@ -103,6 +130,8 @@ def _functions():
         "cat": (cat, [((M23,), 0, None), ((M32,), 1, None)]),
         "pytree": (pytree, [(({"mu": v2, "s": f32(0.5)},), ({"mu": 0, "s": None},), None), (({"mu": v2, "s": np.asarray([0.5, 1.5], f32)},), 0, None)]),
         "mvn": (mvn, [((np.asarray([[0.1, -0.2], [0.3, 0.4]], f32), eye), (0, None), None)]),
+        "kwsite": (kwsite, [((v2, np.asarray([0.5, 1.5], f32)), 0, None), ((f32(0.3), v2 + f32(1.0)), (None, 0), None)]),
+        "kwprobs": (kwprobs, [((np.asarray([0.25, 0.75], f32),), 0, None)]),
         "two_sites": (two_sites, [((v2, f32(0.75)), (0, None), None), ((f32(0.3), v2), (None, 0), None)]),
     }
 
@@ -260,15 +289,26 @@ def _mv_obligations(g, tag, fn, T, N, axes, lane_args0, by_key, lane_axis):
             if fam not in EVENT:
                 g._rec(f"{tag}: law of site {bs.name}", "inconclusive", detail="family not in the C08 table")
                 continue
-            pe, ev = EVENT[fam]
+            _, ev = EVENT[fam]
             bargs, bkw = gfi._site_args(bs)
             largs, lkw = gfi._site_args(ls)
             o = sj.obj(ls.outs[k])
             ob = sj.obj(bs.outs[k])
             nsb, nsl = len(bs.sample_shape), len(ls.sample_shape)
             goals, why = [], ""
-            struct = (ls.name or "") == (bs.name or "") and len(bargs) == len(largs)
+            struct = (ls.name or "") == (bs.name or "")
             if struct:
+                try:
+                    bp, lp = _named_params(fam, bargs, bkw), _named_params(fam, largs, lkw)
+                    struct = sorted(bp) == sorted(lp)
+                    if not struct:
+                        why = f"the lane's site sets the distribution parameters {sorted(lp)}, the batched site {sorted(bp)}"
+                except ValueError as e:
+                    struct, why = False, str(e)
+            if struct:
+                names = sorted(bp)
+                pe = [bp[n][1] for n in names]
+                bargs, largs = [bp[n][0] for n in names], [lp[n][0] for n in names]
                 for idx in np.ndindex(*o.shape):
                     lb = idx[nsl:o.ndim - ev] if ev else idx[nsl:]
                     lane_ps = gfi._param_slices(largs, pe, lb)
